@@ -29,6 +29,16 @@ CHECKS = {
         'note': TB + 'The contract table is trusted (derivations in refs/rules_req.py). Not decided: sufficiency of the preconditions (C01 schemas + calculus), arithmetic-overflow panics, the pi-copy leg condition.',
         'technique': 'must-fact (accepting-condition DNF) extraction with closure rules, existence typestate, wrapper shape rule',
     },
+    'C05': {
+        'text': 'Static: the parallel and sequential branches of decompose_graph / try_decompose_by_components differ only in into_par_iter vs into_iter and a '
+                'cloned decomposer as receiver (same source, recursive call, arguments, post-processing), no user-written unsafe block, no interior mutability in '
+                'the decomposer, drivers or graphs (so rustc\'s Send/Sync checking carries the schedule clause); reductions and node constructors agree with the '
+                'node kind (terms summed, components multiplied, scalar assigned to one component); cat_ts and the Sherlock inline matcher establish the cat '
+                'contract at the point a cat is built; Decomp construction sites are guarded; raw edge insertion only to fresh vertices in the 27 replacement '
+                'bodies; dispatch/config tables; structural effect schemas of apply_cat_decomp (pi-normalisation, padding), cut_spider, reverse_pivot.',
+        'note': TB + 'Not decided: the Z[omega] coefficients of the replace_* terms and the sum identities, the final value, heuristic float arithmetic, the saved-terms clause.',
+        'technique': 'sibling agreement of branch descriptors, type-level schedule argument (field-type scan), reduction/constructor table, facts-at-point contracts, freshness dataflow, effect schemas',
+    },
     'C07': {
         'text': 'Static: every lossy mantissa shift is paired with the lost-bit test that sets APPROX; a flag-taint analysis shows on every return path of '
                 'Dyadic add/mul that the result includes the APPROX bit of both operands; Ord::cmp is decided completely over the finite abstraction '
